@@ -67,7 +67,7 @@ fn gen_member(r: &mut Rng, kind: usize) -> Yaml {
 
 fn scalar_doc(r: &mut Rng) -> Yaml {
     let v = match r.below(8) {
-        0..=3 => ys(*r.pick(&["a", "b", "ab", "ba", "abc", "x", "1", "3", "axb", "ABC", "xab"])),
+        0..=3 => ys(*r.pick(&["a", "b", "ab", "ba", "abc", "x", "1", "3", "axb", "ABC", "xab", "aa", "abab", "bab", "xaxa"])),
         4 => Yaml::Number((*r.pick(&[0u64, 1, 3, 4])).into()),
         5 => Yaml::Bool(r.chance(50)),
         6 => Yaml::Number(2.5f64.into()),
@@ -210,6 +210,22 @@ pub fn run_c08(ctx: &mut Ctx, known: &Known) {
             let hits = c08_eval(ctx, known, &ms, &docs, &format!("witness:{}", f.id));
             if hits > 0 {
                 *ctx.known_hits.entry(f.id.clone()).or_insert(0) += hits;
+            }
+        }
+    }
+    // a member that occurs several times in the value is still ONE member: strings in which the
+    // needles repeat, against needle lists of every kind
+    {
+        let docs: Vec<Yaml> = ["aa", "aaa", "aab", "abab", "bb", "a", "b", "ab", "", "xaxa", "AA", "aAa", "baab", "a a"].iter().map(|h| map1("f", ys(h))).collect();
+        for ms in [
+            vec!["*a*", "*b*", "*x*"], vec!["*aa*", "*b*", "*c*"], vec!["a*", "*a", "*a*"], vec!["i*a*", "i*B*", "i*c*"],
+            vec!["*a*", "*ab*", "*ba*", "*bb*"], vec!["?a", "?b", "?x"], vec!["?a+", "?(?i)A", "?b$"], vec!["*a*", "?a", "b*"],
+            vec!["*a*", "*q*"], vec!["*a*", "*q*", "*z*"], vec!["a*", "aa*", "aaa*"],
+        ] {
+            let members: Vec<Yaml> = ms.iter().map(|m| ys(m)).collect();
+            let hits = c08_eval(ctx, known, &members, &docs, &format!("repeat:{}", ms.join(",")));
+            if hits > 0 {
+                *ctx.known_hits.entry("random:C08-batched-member".into()).or_insert(0) += hits;
             }
         }
     }
@@ -459,6 +475,77 @@ pub fn run_c11(ctx: &mut Ctx, _known: &Known) {
             }
         }
     }
+    // (1c) two fields compared through casts in the condition, the two holding the same number with
+    //      the same or with different Rust signedness; and whole-valued floats, which stay floats in
+    //      every representation
+    {
+        let vals: Vec<u64> = vec![0, 3, 5, i64::MAX as u64];
+        for cond in ["str(a) == str(b)", "int(a) == int(b)", "int(a) >= int(b)", "flt(a) == flt(b)", "flt(a) <= flt(b)", "not str(a) == str(b)"] {
+            let cs = case_of(vec![("A".into(), map1("zz", ys("x"))), ("condition".into(), ys(cond))], vec![], vec![0]);
+            let rule = match Rule::from_value(implside::rule_value(&cs)) {
+                Ok(r) => r,
+                Err(_) => continue,
+            };
+            let opt = rule.clone().optimise(implside::opts(15));
+            for va in &vals {
+                for vb in &vals {
+                    ctx.evaluations += 1;
+                    ctx.nontrivial.insert(hash_str(&format!("two{}{}{}", cond, va, vb)));
+                    let mk = |a: MyVal, b: MyVal| MyObj(vec![("a".to_string(), a), ("b".to_string(), b)]);
+                    let js = serde_json::json!({ "a": va, "b": vb });
+                    let yv: Mapping = serde_yaml::from_str(&format!("{{a: {}, b: {}}}", va, vb)).unwrap();
+                    for (rn, rl) in [("unoptimised", &rule), ("optimised", &opt)] {
+                        let reps = [
+                            ("yaml mapping", rl.matches(&yv)),
+                            ("serde_json value", rl.matches(&js)),
+                            ("Object a:u64 b:u64", rl.matches(&mk(MyVal::UInt(*va), MyVal::UInt(*vb)))),
+                            ("Object a:i64 b:u64", rl.matches(&mk(MyVal::Int(*va as i64), MyVal::UInt(*vb)))),
+                            ("Object a:u64 b:i64", rl.matches(&mk(MyVal::UInt(*va), MyVal::Int(*vb as i64)))),
+                            ("Object a:i64 b:i64", rl.matches(&mk(MyVal::Int(*va as i64), MyVal::Int(*vb as i64)))),
+                        ];
+                        if reps.iter().any(|(_, b)| *b != reps[0].1) {
+                            let dummy = ctx.exchange("tok s:");
+                            ctx.violation("oracle", &format!("{} rule `{}`, a = {}, b = {}: verdicts differ between representations: {:?}", rn, cond, va, vb, reps), &dummy, &rule_yaml(&cs), true);
+                        }
+                    }
+                }
+            }
+        }
+        let fvals: Vec<f64> = vec![1.0, 2.0, -3.0, 0.0, -0.0, 1.5, 9007199254740992.0, 1e300, 5.0, 4294967296.0];
+        for (key, pat) in [("f", "1.0"), ("f", ">=0.5"), ("f", "1"), ("f", "=1"), ("f", "<2.5"), ("f", "=5"), ("f", ">=5.0"), ("flt(f)", ">=0.5"), ("int(f)", "=1"), ("str(f)", "1"), ("str(f)", "1.0"), ("str(f)", "-0"), ("f", "=0"), ("f", "=0.0")] {
+            for cond in ["A", "not A"] {
+                let idv = match pat.parse::<f64>() {
+                    Ok(x) if !pat.starts_with('=') && key == "f" && pat.contains('.') => map1(key, Yaml::Number(x.into())),
+                    _ => map1(key, ys(pat)),
+                };
+                let cs = case_of(vec![("A".into(), idv), ("condition".into(), ys(cond))], vec![], vec![0]);
+                let rule = match Rule::from_value(implside::rule_value(&cs)) {
+                    Ok(r) => r,
+                    Err(_) => continue,
+                };
+                let opt = rule.clone().optimise(implside::opts(15));
+                for x in &fvals {
+                    ctx.evaluations += 1;
+                    ctx.nontrivial.insert(hash_str(&format!("wf{}{}{}{}", key, pat, cond, x.to_bits())));
+                    let mut ym = Mapping::new();
+                    ym.insert(ys("f"), Yaml::Number((*x).into()));
+                    let js = serde_json::Value::Object(std::iter::once(("f".to_string(), serde_json::Value::Number(serde_json::Number::from_f64(*x).unwrap()))).collect());
+                    let nested_js = serde_json::json!({ "o": js.clone() });
+                    let mut hm: HashMap<String, f64> = HashMap::new();
+                    hm.insert("f".to_string(), *x);
+                    let my = MyObj(vec![("f".to_string(), MyVal::Float(*x))]);
+                    let _ = nested_js;
+                    for (rn, rl) in [("unoptimised", &rule), ("optimised", &opt)] {
+                        let reps = [("yaml mapping", rl.matches(&ym)), ("serde_json value", rl.matches(&js)), ("HashMap<String, f64>", rl.matches(&hm)), ("hand-written Object (f64)", rl.matches(&my))];
+                        if reps.iter().any(|(_, b)| *b != reps[0].1) {
+                            let dummy = ctx.exchange("tok s:");
+                            ctx.violation("oracle", &format!("{} rule `{}: {}` ({}), f = {:?} (a float): verdicts differ between representations: {:?}", rn, key, pat, cond, x, reps), &dummy, &rule_yaml(&cs), true);
+                        }
+                    }
+                }
+            }
+        }
+    }
     // (2) the same logical document in four representations gives the same verdicts
     let n = budget(ctx, 1200, 30000);
     for i in 0..n {
@@ -698,6 +785,7 @@ pub fn run_c12(ctx: &mut Ctx, _known: &Known) {
         }
     }
     c12_history(ctx);
+    c12_twins(ctx);
     for i in 0..n {
         let mut r = Rng::new(ctx.seed.wrapping_mul(613).wrapping_add(i as u64));
         let mut c = gen_case(&mut r, vec![0, 15, 10, 7], 5);
@@ -807,6 +895,57 @@ pub fn run_c12(ctx: &mut Ctx, _known: &Known) {
         ctx.nontrivial.insert(hash_str(&ex.line));
         if ctx.samples.len() < 6 {
             ctx.sample(json!({"rule": ry, "optimised": trunc(&printed, 300), "threads": 16, "repeat_optimise": 12}));
+        }
+    }
+}
+
+/// (t) Rules holding identifiers with equal (or nearly equal) bodies: every fresh load, optimised
+/// with every switch combination that keeps the identifiers apart (no coalesce) or not, prints the
+/// same and gives the verdicts of the unoptimised rule — whatever order the identifier map hands
+/// its entries out in (it is seeded per load).
+fn c12_twins(ctx: &mut Ctx) {
+    let rules = [
+        "detection:\n  proc_a:\n    cmd: [whoami, hostname]\n  proc_b:\n    cmd: [whoami, hostname]\n  condition: proc_a or proc_b\n",
+        "detection:\n  proc_a:\n    cmd: [iwhoami, ihostname]\n  proc_b:\n    cmd: [whoami, hostname]\n  condition: proc_a and not proc_b\n",
+        "detection:\n  x1:\n    f: 'a*'\n  x2:\n    f: 'a*'\n  x3:\n    f: 'ia*'\n  x4:\n    str(f): 'a*'\n  condition: (x1 and x2) or (x3 and not x4)\n",
+        "detection:\n  p:\n    f: ['?^a', '?b$']\n  q:\n    f: ['?(?i)^a', '?b$']\n  r:\n    f: ['i?^a', 'i?b$']\n  condition: of(p, 1) and (q or r) and not all(p)\n",
+        "detection:\n  m1:\n    - f: a\n      g: b\n    - f: c\n      g: d\n  m2:\n    - f: a\n      g: b\n    - f: c\n      g: d\n  condition: m1 and m2\n",
+    ];
+    let docs_txt = ["{cmd: WHOAMI}", "{cmd: whoami}", "{cmd: x}", "{f: a}", "{f: A}", "{f: ab}", "{f: Ab}", "{f: xb}", "{f: 1}", "{f: a, g: b}", "{f: c, g: d}", "{f: a, g: d}", "{}"];
+    let docs: Vec<Mapping> = docs_txt.iter().map(|t| serde_yaml::from_str::<Mapping>(t).expect("doc")).collect();
+    for text in rules.iter() {
+        let text = format!("{}true_positives: []\ntrue_negatives: []\n", text);
+        let dummy = Exchange { line: format!("twins {}", hash_str(&text)), imp: String::new(), model: String::new(), agree: true, supported: false };
+        let plain: Vec<bool> = match Rule::from_str(&text) {
+            Ok(r) => docs.iter().map(|d| r.matches(d)).collect(),
+            Err(_) => continue,
+        };
+        ctx.nontrivial.insert(hash_str(&text));
+        for mask in [2u64, 6, 10, 14, 8, 4, 15, 3] {
+            let mut first: Option<(String, Vec<bool>)> = None;
+            for _ in 0..24 {
+                ctx.evaluations += 1;
+                let r = match Rule::from_str(&text) {
+                    Ok(r) => r.optimise(implside::opts(mask)),
+                    Err(_) => break,
+                };
+                let printed = format!("{} {}", r.detection.expression, implside::ids_sx(&r.detection.identifiers));
+                let got: Vec<bool> = docs.iter().map(|d| r.matches(d)).collect();
+                match &first {
+                    None => first = Some((printed, got)),
+                    Some((p0, g0)) => {
+                        if *g0 != got {
+                            let j = (0..docs.len()).find(|j| got[*j] != g0[*j]).unwrap_or(0);
+                            ctx.violation("oracle", &format!("two loads of one rule text, optimised with mask {}, give different verdicts on {}: {} and {} (unoptimised: {})", mask, docs_txt[j], g0[j], got[j], plain[j]), &dummy, &text, true);
+                            break;
+                        }
+                        if *p0 != printed {
+                            ctx.violation("oracle", &format!("two loads of one rule text, optimised with mask {}, print differently:\n {}\n {}", mask, trunc(p0, 300), trunc(&printed, 300)), &dummy, &text, true);
+                            break;
+                        }
+                    }
+                }
+            }
         }
     }
 }
@@ -1040,6 +1179,23 @@ pub fn run_c14(ctx: &mut Ctx, _known: &Known) {
             let v = if r.chance(50) { ys(s) } else { Yaml::Sequence(vec![ys(s), ys(*r.pick(&tricky))]) };
             c.det.push(("Q".into(), map1(*r.pick(&["a", "s", "str(n)"]), v)));
         }
+        // literals and spellings in the condition that have more than one textual form
+        let cond_specials = ["flt(a) < 0.000001", "flt(a) >= 10000000000000000.0", "flt(n) <= 0.00000000001", "flt(n) > 123456789012345678.0",
+            "1.5 < flt(a)", "flt(a) == 0.1", "int(n) < 9223372036854775807", "int( n ) > 5", "string(a) == str(s)", "flt(n) >= 2.0", "flt(n) == 100000.0",
+            "of(Q, 1)", "flt(a) < 0.00001", "flt(a) >= 1000000000000000.0"];
+        if i < 4 * cond_specials.len() || r.chance(10) {
+            let sp = cond_specials[i % cond_specials.len()];
+            let has_q = c.det.iter().any(|(k, _)| k == "Q");
+            if !(sp.contains('Q') && !has_q) {
+                for (k, cv) in c.det.iter_mut() {
+                    if k == "condition" {
+                        if let Yaml::String(t) = cv {
+                            *t = if i % 2 == 0 { format!("({}) or {}", t, sp) } else { format!("{} and ({})", sp, t) };
+                        }
+                    }
+                }
+            }
+        }
         let (ex, parsed) = run_rule_case(ctx, &c, false);
         let p = match parsed {
             Some(p) if p.load == "ok" => p,
@@ -1135,6 +1291,22 @@ fn i_prefix(y: &Yaml) -> Yaml {
     }
 }
 
+/// The document with its keys (all of them, or only the top-level ones) in upper case.
+fn upper_keys(y: &Yaml, deep: bool) -> Yaml {
+    match y {
+        Yaml::Mapping(m) => {
+            let mut out = Mapping::new();
+            for (k, v) in m {
+                let k2 = match k { Yaml::String(s) => ys(&s.to_ascii_uppercase()), other => other.clone() };
+                out.insert(k2, if deep { upper_keys(v, deep) } else { v.clone() });
+            }
+            Yaml::Mapping(out)
+        }
+        Yaml::Sequence(xs) if deep => Yaml::Sequence(xs.iter().map(|x| upper_keys(x, deep)).collect()),
+        other => other.clone(),
+    }
+}
+
 pub fn run_c15(ctx: &mut Ctx, _known: &Known) {
     let ic_bin = std::env::var("TAU_IC_BIN").unwrap_or_else(|_| "/verif/harness/target_ic/release/tauh".to_string());
     let mut ic = match Driver::spawn_cmd(&ic_bin, &["serve"]) {
@@ -1167,6 +1339,12 @@ pub fn run_c15(ctx: &mut Ctx, _known: &Known) {
         }
         if !ascii_rule_ok(&c) {
             continue;
+        }
+        // only PATTERNS are case-insensitive, field names are not: documents whose keys differ from
+        // the rule's fields in case only
+        if i % 3 == 0 {
+            let extra: Vec<Yaml> = c.docs.iter().take(2).map(|d| upper_keys(d, i % 2 == 0)).collect();
+            c.docs.extend(extra);
         }
         // the ignore_case build on R (model with icFeature = true as well)
         let line_ic = case::case_line(true, &c);
